@@ -12,10 +12,14 @@ from sim import kernel
 _CERTS = {}
 
 
-def make_certificate(common_names=('alice',), eku=('client',)):
+def make_certificate(common_names=('alice',), eku=('client',), extras=None):
     """Real DER certificate. eku: None = extension absent; tuple of
-    'client'/'server' otherwise."""
-    key = (tuple(common_names), None if eku is None else tuple(eku))
+    'client'/'server' otherwise. extras: names that are NOT common names -
+    {'san_dns': [...], 'san_email': [...], 'attrs': [(NameOID name,
+    value), ...]} (subject alternative names, other subject attributes)."""
+    extras = extras or {}
+    key = (tuple(common_names), None if eku is None else tuple(eku),
+           repr(sorted(extras.items())))
     if key in _CERTS:
         return _CERTS[key]
     from cryptography import x509
@@ -23,6 +27,8 @@ def make_certificate(common_names=('alice',), eku=('client',)):
     from cryptography.x509.oid import NameOID, ExtendedKeyUsageOID
     priv = kernel.pool_private_key(1024, 0)
     attrs = [x509.NameAttribute(NameOID.ORGANIZATION_NAME, u'sim')]
+    for oid_name, val in extras.get('attrs', []):
+        attrs.append(x509.NameAttribute(getattr(NameOID, oid_name), val))
     for cn in common_names:
         attrs.append(x509.NameAttribute(NameOID.COMMON_NAME, cn))
     name = x509.Name(attrs)
@@ -42,6 +48,10 @@ def make_certificate(common_names=('alice',), eku=('client',)):
                          'email': ExtendedKeyUsageOID.EMAIL_PROTECTION,
                          'codesign': ExtendedKeyUsageOID.CODE_SIGNING}[e])
         b = b.add_extension(x509.ExtendedKeyUsage(oids), critical=False)
+    san = [x509.DNSName(v) for v in extras.get('san_dns', [])] + \
+        [x509.RFC822Name(v) for v in extras.get('san_email', [])]
+    if san:
+        b = b.add_extension(x509.SubjectAlternativeName(san), critical=False)
     cert = b.sign(priv, hashes.SHA256())
     der = cert.public_bytes(serialization.Encoding.DER)
     _CERTS[key] = der
